@@ -127,6 +127,8 @@ class Model:
 
     def roundtrip(self):
         def conv(spec):
+            if spec[-1] == "sub":      # parsing hands back plain dates and datetimes
+                spec = spec[:-1]
             if spec[0] == "dt" and spec[7] and spec[7][0] == "pytz":
                 return spec[:7] + [["zi", spec[7][1]]]
             return spec
@@ -237,9 +239,11 @@ class Model:
 
 def _val(rng, aware, kind=None):
     kind = kind or rng.choice(["date", "dt", "dt"])
-    if kind == "date":
-        return rng.choice(DATES)
-    return rng.choice(AWARE if aware else FLOATING)
+    v = rng.choice(DATES) if kind == "date" else rng.choice(AWARE if aware else FLOATING)
+    if rng.random() < 0.12:
+        # the same value as an instance of a date/datetime subclass; a "dt" spec needs its tz slot first
+        v = list(v) + ["sub"]
+    return v
 
 
 def generate(rng, cfg):
@@ -320,7 +324,7 @@ def _vclass(v):
     if v is None:
         return ""
     if v[0] == "dt":
-        return "dt:" + ("floating" if v[7] is None else v[7][0])
+        return "dt:" + ("floating" if v[7] is None else v[7][0]) + ("+sub" if v[-1] == "sub" else "")
     if v[0] == "td":
         return "td:" + ("day" if v[2] == 0 else "sub")
     return v[0]
@@ -597,5 +601,7 @@ def simplify_step(step):
     if op == "new" and a["how"] == "parse" and not a["props"]:
         yield [c, op, dict(a, how="api")]
     v = a.get("v")
+    if v and v[-1] == "sub":
+        yield [c, op, dict(a, v=v[:-1])]
     if v and v[0] == "dt" and v[7] and v[7][0] != "utc":
         yield [c, op, dict(a, v=v[:7] + [["utc"]])]
